@@ -290,6 +290,16 @@ theorem lookup_newest_acked (evs : List Ev) (newer older : List Entry) (a : Entr
   rw [hs] at h
   exact accept_newest_acked newer older a _ hk hn h
 
+/-- The judge only looks at the attempts of the key in question (the driver keeps one attempt list per key). -/
+theorem acceptKey_filter (atts : List Entry) (k : Nat) (r : Option Bytes) :
+    acceptKey (atts.filter (·.key = k)) k r = acceptKey atts k r := by
+  induction atts with
+  | nil => rfl
+  | cons e t ih =>
+    by_cases hk : e.key = k
+    · simp only [List.filter_cons, hk, decide_true, if_true, acceptKey, ne_eq, not_true_eq_false, if_false, ih]
+    · simp only [List.filter_cons, hk, decide_false, Bool.false_eq_true, if_false, acceptKey, ne_eq, not_false_eq_true, if_true, ih]
+
 /-! ## non-vacuity: a put is acknowledged, a second one to the same key is in flight when the node is killed -/
 
 private def tr (cut : Nat) : List Ev := [.put 1 [10], .ack, .put 2 [20], .ack, .put 1 [11], .crash cut, .reopen]
